@@ -43,7 +43,7 @@ func main() {
 	run := common.NewRun(os.Args[1], c.level, os.Args[2:])
 	if os.Args[1] != "C20G" && os.Args[1] != "C19" {
 		// (C20G runs the emulator in child processes and judges unanswered requests itself - being answered is its property)
-		drive.OnUnanswered = func(desc string) { hangConfirm(run, desc) }
+		drive.OnUnanswered = func(desc string, period int) bool { return hangConfirm(run, desc, period) }
 	}
 	c.fn(run)
 	run.Finish()
